@@ -217,7 +217,7 @@ pub fn check(c: &NetCase) -> CheckResult {
             let got: Vec<u8> = match c.endpoint {
                 Endpoint::Server => {
                     let server = Server::new(router);
-                    let l = server.listen("127.0.0.1:0").map_err(|e| Fail::new("harness-listen", e.to_string()))?;
+                    let l = server.listen(crate::util::lo0().as_str()).map_err(|e| Fail::new("harness-listen", e.to_string()))?;
                     let addr = l.local_addr().unwrap();
                     std::thread::spawn(move || {
                         let _ = server.serve(l);
@@ -225,7 +225,7 @@ pub fn check(c: &NetCase) -> CheckResult {
                     block_on(raw_roundtrip(addr, req, want.len()))?
                 }
                 Endpoint::AsyncServer => block_on(async {
-                    let l = AsyncServer::listen("127.0.0.1:0").await.map_err(|e| Fail::new("harness-listen", e.to_string()))?;
+                    let l = AsyncServer::listen(crate::util::lo0().as_str()).await.map_err(|e| Fail::new("harness-listen", e.to_string()))?;
                     let addr = l.local_addr().unwrap();
                     let srv = tokio::spawn(async move {
                         let _ = AsyncServer::new(router).serve(l).await;
